@@ -81,7 +81,8 @@ fn cmd_c01(args: &[String]) {
     let vectors = read_ndjson(&inp);
     engine::install_panic_hook();
     let rt = tokio::runtime::Builder::new_current_thread().enable_all().build().unwrap();
-    let evs = rt.block_on(codec::c01(&vectors, seed, n));
+    let all_idents = args.iter().any(|a| a == "--all-idents");
+    let evs = rt.block_on(codec::c01(&vectors, seed, n, all_idents));
     write_ndjson(&out, &evs);
     let noncanon = evs.iter().filter(|e| e.get("canonical").and_then(|c| c.as_bool()) == Some(false)).count();
     println!("{}", serde_json::json!({"events": evs.len(), "vectors": vectors.len(), "non_canonical": noncanon}));
